@@ -2,7 +2,16 @@
    expand <macro m> <macro n> <program>    each a comma-separated token list ("-" = empty):
        c<hex> change command, k<hex> other keys, d<n> = N. (0 = no count), e<n><r> = N@r (r = m n @)
      -> hex of the key stream that reached the command interpreter, or "clipped"
-   capacity -> how many of 5000 pushes of a one-key command the queue takes *)
+   capacity -> how many of 5000 pushes of a one-key command the queue takes
+   virun <rows> <filehex> <keyshex>   the raw-key interpreter (coq/ViKeys.v vi_session) on a typed session
+     -> "<row> <off> <col> <top> <texthex> <reg>..." (registers "" a b c 1..9 as <texthex>:<ln> or x; the answer
+        format of the `op` request of drv_vi.ml), or "out" (a key outside the modelled command set, or the input
+        ends inside a command), or "clipped" (a push did not fit / fuel)
+   vitok <rows> <filehex> <keyshex>   token boundaries of the typed keys
+     -> "<status> <kinds> <static> <dynamic>": status ok|out|clipped; kinds = one letter per command of the
+        syntactic tokenisation (coq/ViKeys.v tokens; "-" if the keys do not tokenise); static = its boundaries
+        (byte offsets, comma separated); dynamic = the offsets of the typed keys consumed whenever the loop of
+        vi() (vi_session_trace) has drained the pushed keys *)
 let pr = Printf.printf
 let parse_tok w =
   let rest = String.sub w 1 (String.length w - 1) in
@@ -14,6 +23,24 @@ let parse_tok w =
            TExec (nat_of_int (int_of_string (String.sub rest 0 (String.length rest - 1))), n_of_int (Char.code r))
   | _ -> failwith "tok"
 let parse_list w = if w = "-" then [] else List.map parse_tok (String.split_on_char ',' w)
+let show_state v =
+  match v.vi_est with
+  | None -> pr "out\n"
+  | Some e ->
+    let s = e.s_vs in
+    pr "%d %d %d %d %s" (int_of_z s.v_row) (int_of_z s.v_off) (int_of_z s.v_col) (int_of_z s.v_top)
+      (hex_of_bytes (List.concat (List.map flat e.s_buf)));
+    List.iter (fun c ->
+      match reg_get e.s_regs (n_of_int c) with
+      | Some (t, ln) -> pr " %s:%d" (hex_of_bytes t) (if ln then 1 else 0)
+      | None -> pr " x") [0; 97; 98; 99; 49; 50; 51; 52; 53; 54; 55; 56; 57];
+    pr "\n"
+let kind_of = function
+  | KCmd (c, _) -> (match c with
+      | CGoto _ | CMot _ -> 'm' | COp (_, _, Oc, _, _, _) -> 'c' | COp _ -> 'o' | CPut _ -> 'p' | CJoin _ -> 'j'
+      | CReplace _ -> 'r' | CIns _ -> 'i')
+  | KNop _ -> 'n' | KSkip -> 's' | KDot _ -> 'd' | KExec _ -> 'e' | KOut -> 'x'
+let commas l = if l = [] then "-" else String.concat "," (List.map string_of_int l)
 let () =
   iter_lines (fun l ->
     match words l with
@@ -24,5 +51,26 @@ let () =
       (match tok_run (nat_of_int 100000) macros (parse_list p) with
        | Some s -> pr "%s\n" (hex_of_bytes s)
        | None -> pr "clipped\n")
+    | ["virun"; rows; text; keys] ->
+      let b = buf_of_bytes (bytes_of_hex text) in
+      (match vi_session (z_of_int (int_of_string rows)) (nat_of_int 200000) b (bytes_of_hex keys) with
+       | Some v -> show_state v
+       | None -> pr "clipped\n")
+    | ["vitok"; rows; text; keys] ->
+      let b = buf_of_bytes (bytes_of_hex text) in
+      let ks = bytes_of_hex keys in
+      let total = List.length ks in
+      let rec stat s pos kinds bounds =
+        if s = [] then Some (List.rev kinds, List.rev bounds) else
+        match next_command s with
+        | Some (c, rest) -> let pos' = pos + (List.length s - List.length rest) in stat rest pos' (kind_of c :: kinds) (pos' :: bounds)
+        | None -> None in
+      let (kinds, sb) = match stat ks 0 [] [] with
+        | Some (k, b) -> (String.init (List.length k) (List.nth k), commas b)
+        | None -> ("-", "-") in
+      let (tr, r) = vi_session_trace (z_of_int (int_of_string rows)) (nat_of_int 200000) b ks in
+      let dyn = List.filter_map (fun (t, i) -> if int_of_nat i = 0 then Some (total - int_of_nat t) else None) tr in
+      let status = match r with None -> "clipped" | Some v -> (match v.vi_est with None -> "out" | Some _ -> "ok") in
+      pr "%s %s %s %s\n" status (if kinds = "" then "-" else kinds) sb (commas dyn)
     | ["capacity"] -> pr "%d\n" (int_of_nat (capacity_pushes (nat_of_int 5000)))
     | _ -> pr "?\n")
